@@ -166,6 +166,19 @@ TEXT = {
           "Go-side round-trip monitors, T4 by an AST fact plus monitors (no Lean model of the ABI).",
   "technique": "Lean 4 proof (induction/omega/decide) + regenerated AST facts + differential correspondence",
  },
+ "C19": {
+  "text": "Kernel-checked theorems over the Go-faithful model of wallet/{derivation,keystore,keyfile,crypto,password}.go "
+          "with the primitives as parameters: isValidPath accepts exactly m(/<decimal below 2^32>')+, every HMAC step uses "
+          "an index in [2^31,2^32), DeriveForPath succeeds iff all segments are below 2^31 (DeriveWithIndex iff i < 2^31), "
+          "step input = 0x00||key||be32(i) injective, Decrypt(Encrypt(ks,pw),pw) = ks from open_seal, recorded address = "
+          "index-0 address, address = 0x00||sha3(pk)[:19], sign/verify from verify_sign; tied to the tree by regenerated "
+          "constants (regex text, ParseUint bit size, Argon2 parameters and AD string on both sides read from the AST) and "
+          "a differential stream on the real wallet code with independently computed oracle values.",
+  "design_ref": "§3 C19",
+  "note": "Tamper evidence (wrong password / flipped bit fails) is a cryptographic assumption, covered by the stream's "
+          "monitor only; the JSON text layer is covered by the stream only.",
+  "technique": "Lean 4 proof (induction/omega/simp) + regenerated facts from AST + differential correspondence with oracle tables",
+ },
  "C18": {
   "text": "Kernel-checked theorems that GetRange is the statement's slice for all (index,count,len), pages tile the "
           "list and each element lies on exactly one page; model tied by a differential stream over the full uint32 range.",
@@ -196,5 +209,21 @@ TEXT = {
   "note": "Arithmetic part only (T1-T3). Epoch cursor (exactly once, in order), collect-once and node-independence are "
           "not covered by this check yet.",
   "technique": "Lean 4 proof (induction/omega/decide over generated tables) + regenerated constants + differential correspondence",
+ },
+ "C20": {
+  "text": "Kernel-checked theorems over the Go-faithful model of NewMomentumContent (sorted by address|height|hash bytes; any two "
+          "sorted arrangements of the same headers are equal, so sort(perm l) = sort l independently of the algorithm), of "
+          "CheckGenesis and its five validators (accepted => entries of every declared token add up to TotalSupply, every given "
+          "token declared, swap contract holds nothing; plasma/pillar holdings and ledger supply under explicit extra premises "
+          "with negative witnesses for the gaps) and of checkGenesisCompatibility (refused iff stored height-1 hash differs); "
+          "tied to the tree by regenerated facts (validator order, comparer operator, header field order, contract addresses) "
+          "and a differential stream on the real NewGenesis / CheckGenesis / chain.Init.",
+  "design_ref": "§3 C20",
+  "note": "Permutation / fresh-process invariance of the whole genesis momentum is decided on the real code by the stream's "
+          "monitor, not by a theorem. Four accepted-but-inconsistent configuration classes (no contract entry, duplicate address entry, supply above "
+          "MaxSupply, negative amounts) and a (nil,nil) return of ReadGenesisConfigFromFile are reproduced on the real code "
+          "on every run and listed as known findings F13a-e.",
+  "technique": "Lean 4 proof (core List.mergeSort/Perm lemmas, induction, decide witnesses) + regenerated facts from AST + "
+               "differential correspondence + ledger monitor on a real chain",
  },
 }
